@@ -7,6 +7,8 @@ import (
 	"path/filepath"
 	"sort"
 	"strings"
+	"sync"
+	"sync/atomic"
 	"testing"
 
 	"github.com/scionproto/scion/pkg/addr"
@@ -378,6 +380,166 @@ func c11Carriers(cfg *rtr.Cfg, now uint32, all bool) []c11Carrier {
 	return out
 }
 
+type atomicCounter struct{ v atomic.Int64 }
+
+func (c *atomicCounter) add(n int64) { c.v.Add(n) }
+func (c *atomicCounter) load() int64 { return c.v.Load() }
+
+// ---- service registration histories ----
+//
+// "Packets for a service address go to the address and port of a REGISTERED instance": registration is a history
+// (AddSvc / DelSvc calls made by the control plane while the router runs). Reference model: a set per service.
+
+type c11SvcEv struct {
+	add  bool
+	svc  int // 0: service A (three instances), 1: service B (two instances, the first has the same address as A's first)
+	inst int
+}
+
+var c11Inst = [2][]netip.AddrPort{
+	{netip.MustParseAddrPort("10.0.1.1:30252"), netip.MustParseAddrPort("10.0.1.1:30253"), netip.MustParseAddrPort("10.0.1.2:30252")},
+	{netip.MustParseAddrPort("10.0.1.1:30252"), netip.MustParseAddrPort("[fd00::61]:30255")},
+}
+
+func c11SvcAlphabet() []c11SvcEv {
+	var out []c11SvcEv
+	for s := range c11Inst {
+		for i := range c11Inst[s] {
+			out = append(out, c11SvcEv{true, s, i}, c11SvcEv{false, s, i})
+		}
+	}
+	return out
+}
+
+func (e c11SvcEv) String() string {
+	return fmt.Sprintf("%s(%c%d)", map[bool]string{true: "add", false: "del"}[e.add], 'A'+rune(e.svc), e.inst)
+}
+
+// c11SvcHarness applies histories to one router and judges the deliveries. fresh=false: the two services of a history
+// get service numbers never used before on this router (their registration state is that of a new router).
+type c11SvcHarness struct {
+	r         *mc.Run
+	site      string
+	rt        *rtr.Router
+	pr        *rtr.Proc
+	carriers  []c11Carrier
+	next      uint16 // next unused service number
+	everFixed [2]map[netip.AddrPort]bool
+	tag       string // prefix of case keys (histories that share a prefix but follow different predecessors)
+	n         int    // packets per service and state
+}
+
+const (
+	c11SvcFirst = 0x0100
+	c11SvcLast  = 0x7ff0
+)
+
+func (h *c11SvcHarness) exhausted() bool { return h.next+2 > c11SvcLast }
+
+// judge sends h.n packets to each service and checks every delivery against the model.
+func (h *c11SvcHarness) judge(hist string, svcNo [2]addr.SVC, model [2]map[netip.AddrPort]bool, ever [2]map[netip.AddrPort]bool, rot int) {
+	for s := 0; s < 2; s++ {
+		seen := map[netip.AddrPort]bool{}
+		for k := 0; k < h.n; k++ {
+			car := h.carriers[(rot+k)%len(h.carriers)]
+			dst := rtr.SVC(uint16(svcNo[s]))
+			if k%4 == 3 {
+				dst = rtr.SVC(uint16(svcNo[s]) | 0x8000) // multicast form of the same service
+			}
+			raw, in := car.mk(dst, func(p *rtr.Pkt) { p.SetUDP(40001, uint16(30000+k), []byte("c11-svc")) })
+			res := h.pr.Run(raw, in, false)
+			detail := func(want string) map[string]any {
+				return map[string]any{"configuration": h.site, "history": hist, "service": string(rune('A' + s)), "service_number": uint16(svcNo[s]),
+					"registered_now": fmt.Sprint(c11Keys(model[s])), "ever_registered": fmt.Sprint(c11Keys(ever[s])), "carrier": car.name,
+					"got": fmt.Sprintf("disp=%s egress=%d remote=%v", dispName(res.Fast.Disp), res.Fast.Egress, res.Fast.Remote), "want": want,
+					"packet": fmt.Sprintf("%x", raw)}
+			}
+			if res.Panic != nil {
+				h.r.Violation("svc-history:panic", detail("no panic"))
+				h.rt.VerifStart()
+				continue
+			}
+			delivered := res.Fast.Disp == router.VerifForward && res.Fast.Egress == 0 && res.Fast.Remote != nil
+			if !delivered {
+				switch {
+				case res.Fast.Disp == router.VerifForward:
+					h.r.Violation("svc-history:forwarded-elsewhere", detail("local delivery"))
+				case len(model[s]) == 0:
+					h.r.Outcome("svc-history:none-registered-not-delivered")
+				default:
+					h.r.Violation("svc-history:not-delivered-although-an-instance-is-registered", detail("one of the registered instances"))
+				}
+				continue
+			}
+			got := res.Fast.Remote.AddrPort()
+			got = netip.AddrPortFrom(got.Addr().Unmap(), got.Port())
+			seen[got] = true
+			switch {
+			case model[s][got]:
+				h.r.Outcome("svc-history:to-registered-instance")
+			case ever[s][got]:
+				h.r.Violation("svc-history:sent-to-deregistered-instance", detail("one of the registered instances (none: not delivered)"))
+			case model[1-s][got] || ever[1-s][got]:
+				h.r.Violation("svc-history:sent-to-instance-of-another-service", detail("one of the registered instances (none: not delivered)"))
+			default:
+				h.r.Violation("svc-history:sent-to-address-never-registered", detail("one of the registered instances (none: not delivered)"))
+			}
+		}
+		if len(model[s]) > 0 && len(seen) == len(model[s]) {
+			h.r.Outcome("svc-history:every-registered-instance-used")
+		}
+	}
+}
+
+func c11Keys(m map[netip.AddrPort]bool) []string {
+	var out []string
+	for k := range m {
+		out = append(out, k.String())
+	}
+	sort.Strings(out)
+	return out
+}
+
+// run applies hist (on two unused service numbers, or on svcNo if given) and judges after the steps in judgeAt
+// (nil: only the final state).
+func (h *c11SvcHarness) run(hist []c11SvcEv, fixed *[2]addr.SVC, everyStep bool, rot int) {
+	var svcNo [2]addr.SVC
+	if fixed != nil {
+		svcNo = *fixed
+	} else {
+		svcNo = [2]addr.SVC{addr.SVC(h.next), addr.SVC(h.next + 1)}
+		h.next += 2
+	}
+	model := [2]map[netip.AddrPort]bool{{}, {}}
+	ever := [2]map[netip.AddrPort]bool{{}, {}}
+	if fixed != nil { // histories on fixed service numbers follow each other on this router: remember what was ever registered
+		if h.everFixed[0] == nil {
+			h.everFixed = ever
+		}
+		ever = h.everFixed
+	}
+	name := ""
+	for i, e := range hist {
+		a := c11Inst[e.svc][e.inst]
+		var err error
+		if e.add {
+			err = h.rt.AddSvc(svcNo[e.svc], addr.HostIP(a.Addr()), a.Port())
+			model[e.svc][a], ever[e.svc][a] = true, true
+		} else {
+			err = h.rt.DelSvc(svcNo[e.svc], addr.HostIP(a.Addr()), a.Port())
+			delete(model[e.svc], a)
+		}
+		name += e.String() + " "
+		if err != nil {
+			h.r.Violation("svc-history:registration-call-failed", map[string]any{"configuration": h.site, "history": name, "error": err.Error()})
+		}
+		if everyStep || i == len(hist)-1 {
+			h.r.Case(h.site+"|"+h.tag+name, true)
+			h.judge(name, svcNo, model, ever, rot+i)
+		}
+	}
+}
+
 func TestC11(t *testing.T) {
 	r := mc.NewRun(t, "C11", mc.Exploration)
 	r.Rule = "configurations {raw data plane: every order of SetPortRange / AddInternalInterface / AddSvc (and range never set) x 7 " +
@@ -386,7 +548,11 @@ func TestC11(t *testing.T) {
 		"path; thorough: every delivering case) x destinations {IPv4, IPv6, SVC CS (2 instances), CS multicast, DS, unregistered} x 23 " +
 		"L4 kinds (UDP, TCP, SCMP echo/traceroute request+reply, 5 SCMP error types quoting UDP, truncated quotes, quotes of SCMP, " +
 		"unknown types) x boundary ports of the range {0,1,1023,1024,start-1,start,end,end+1,30041,30042,65535}; distinct key = all of " +
-		"these; non-trivial = all"
+		"these; non-trivial = all. Service registration histories: every sequence of up to 4 (thorough 5) AddSvc/DelSvc calls over {service A: 3 " +
+		"instances, service B: 2 instances, one address shared} on a raw and a start-up-configured router (each history on service numbers " +
+		"never used before on that router), judged in its final state with 16 packets per service (rotating carriers, base and multicast " +
+		"address); plus CS and DS with 3+2 instances registered in every order and de-registered in every order on freshly built routers, " +
+		"judged after every call; distinct key = configuration + history"
 	kinds := c11Kinds()
 	dsts := c11Dsts()
 	svcKinds := map[string]bool{"udp": true, "tcp": true, "scmp-echo-reply": true, "scmp-echo-request": true,
@@ -524,6 +690,142 @@ func TestC11(t *testing.T) {
 				}
 			}
 		})
+		// ---- service registration histories (AddSvc / DelSvc while the router is configured and running) ----
+		type svcSite struct {
+			name  string
+			build func(dir string) (*rtr.Router, error)
+		}
+		sites := []svcSite{
+			{"raw", func(string) (*rtr.Router, error) {
+				cfg := rtr.StdCfg(true, rtr.KeyA)
+				cfg.Svcs = nil
+				return rtr.Build(cfg)
+			}},
+			{"startup", func(dir string) (*rtr.Router, error) {
+				rc := rconfig.RouterConfig{NumProcessors: 1, NumSlowPathProcessors: 1, BatchSize: 8, BFD: rconfig.BFD{Disable: true}}
+				if err := rc.Validate(); err != nil {
+					return nil, err
+				}
+				rt, _, err := rtr.BuildStartup(rtr.Startup{Cfg: rtr.Cfg{IA: rtr.LocalIA, Ifs: c17Ifs()}, Router: rc, TopoRange: "all", Dir: dir})
+				return rt, err
+			}},
+		}
+		newHarness := func(st svcSite, dir string) *c11SvcHarness {
+			var rt *rtr.Router
+			var err error
+			if p := mc.Safely(func() { rt, err = st.build(dir) }); p != nil || err != nil {
+				r.HarnessError("building %s router for service histories: err=%v panic=%v", st.name, err, p)
+				return nil
+			}
+			return &c11SvcHarness{r: r, site: st.name, rt: rt, pr: rt.NewProc(), carriers: c11Carriers(&rt.Cfg, now, false),
+				next: c11SvcFirst, n: 16}
+		}
+		alpha := c11SvcAlphabet()
+		depth := mc.Pick(4, 5)
+		// (a) every history over the alphabet up to the depth bound: one job per (site, first two events)
+		type hjob struct {
+			site   int
+			e0, e1 int
+		}
+		var hjobs []hjob
+		for si := range sites {
+			for e0 := range alpha {
+				for e1 := range alpha {
+					hjobs = append(hjobs, hjob{si, e0, e1})
+				}
+			}
+		}
+		var nHist, nJudged atomicCounter
+		var pool [2]sync.Pool
+		mc.ParallelFor(len(hjobs), func(ji int) {
+			j := hjobs[ji]
+			if r.OutOfBudget() {
+				r.Capped("internal budget (service histories)")
+				return
+			}
+			h, _ := pool[j.site].Get().(*c11SvcHarness)
+			if h == nil {
+				if h = newHarness(sites[j.site], filepath.Join(base, fmt.Sprintf("svc-%d-%d", j.site, ji))); h == nil {
+					return
+				}
+			}
+			hist := []c11SvcEv{alpha[j.e0], alpha[j.e1]}
+			if j.e1 == 0 {
+				h.run(hist[:1], nil, false, ji) // the length-1 history, once per first event
+				nHist.add(1)
+			}
+			var rec func(hist []c11SvcEv)
+			rec = func(hist []c11SvcEv) {
+				if h.exhausted() { // all service numbers of this router are used: continue on a new one
+					if h = newHarness(sites[j.site], filepath.Join(base, fmt.Sprintf("svc-%d-%d-%d", j.site, ji, nHist.load()))); h == nil {
+						return
+					}
+				}
+				h.run(hist, nil, false, ji+len(hist))
+				nHist.add(1)
+				if len(hist) == depth {
+					return
+				}
+				for _, e := range alpha {
+					rec(append(hist[:len(hist):len(hist)], e))
+					if h == nil {
+						return
+					}
+				}
+			}
+			rec(hist)
+			if h != nil {
+				pool[j.site].Put(h)
+			}
+		})
+		// (b) the real service numbers (CS, DS) on freshly built routers: register three instances each in every order,
+		// then de-register them in every order, judged after every step
+		perms := c11Perms([]string{"0", "1", "2"})
+		type pjob struct{ site, addP, delP int }
+		var pjobs []pjob
+		for si := range sites {
+			for ap := range perms {
+				for dp := range perms {
+					if mc.Thorough() || si == 0 || (ap+dp)%3 == 0 {
+						pjobs = append(pjobs, pjob{si, ap, dp})
+					}
+				}
+			}
+		}
+		routersB := mc.Pick(6, 12)
+		mc.ParallelFor(routersB, func(w int) {
+			var h *c11SvcHarness
+			for ji := w; ji < len(pjobs); ji += routersB {
+				j := pjobs[ji]
+				if h == nil || h.site != sites[j.site].name {
+					if h = newHarness(sites[j.site], filepath.Join(base, fmt.Sprintf("svcb-%d-%d", w, ji))); h == nil {
+						return
+					}
+				}
+				// On one router the histories follow each other: each ends with everything de-registered (judged: nothing is
+				// delivered any more), so the next one starts from the empty registration state.
+				var hist []c11SvcEv
+				for k := 0; k < 3; k++ {
+					i := int(perms[j.addP][k][0] - '0')
+					hist = append(hist, c11SvcEv{true, 0, i})
+					if i < 2 {
+						hist = append(hist, c11SvcEv{true, 1, i})
+					}
+				}
+				for k := 0; k < 3; k++ {
+					i := int(perms[j.delP][k][0] - '0')
+					hist = append(hist, c11SvcEv{false, 0, i})
+					if i2 := int(perms[j.delP][2-k][0] - '0'); i2 < 2 {
+						hist = append(hist, c11SvcEv{false, 1, i2})
+					}
+				}
+				h.tag = fmt.Sprintf("cs+ds #%d: ", ji)
+				h.run(hist, &[2]addr.SVC{addr.SvcCS, addr.SvcDS}, true, ji)
+				nJudged.add(int64(len(hist)))
+			}
+		})
+		r.Extra["service_histories"] = map[string]any{"alphabet": fmt.Sprint(alpha), "depth": depth, "histories_on_unused_service_numbers": nHist.load(),
+			"states_judged_on_cs_ds_of_fresh_routers": nJudged.load(), "packets_per_service_and_state": 16}
 		r.Extra["configurations"] = len(cfgs)
 		r.Extra["l4_kinds"] = len(kinds)
 	})
@@ -534,6 +836,9 @@ func TestC11(t *testing.T) {
 		"packets from which no port can be derived (quote cut inside the L4 header, SCMP error quoting an SCMP error, unknown SCMP types, unknown L4 protocol): 30041 or no delivery are both accepted, any other port is a violation",
 		"service destinations: the statement (registered instance's address and port) is checked for every L4 destination port; router-port-dispatch.rst would let a non-zero UDP destination port override the registered port — not demanded here",
 		"the range order alphabet is SetPortRange/AddInternalInterface/AddSvc; external and sibling links are always added after the internal interface",
+		"'a registered instance' = an instance added by AddSvc and not removed by a later DelSvc for that service (set semantics: adding twice registers once, removing an unknown instance changes nothing); with no instance registered the packet must not be delivered",
+		"which registered instance is chosen is up to the router (it draws at random): every observed delivery must hit the registered set; a de-registered instance that stays in the table is hit with probability >= 1/3 per packet, 16 packets per state and thousands of states make a miss of such a defect practically impossible, and no verdict on the unchanged tree depends on the draw",
+		"registration state is per service number: a history applied to service numbers never used on a router starts from the state of a new router (this saves rebuilding the router, 0.1 s, for each of the 10^4..10^5 histories); the CS/DS part uses freshly built routers and the real service numbers",
 	}
 	r.Finish(4)
 }
